@@ -17,6 +17,11 @@
 (*   fromsec  Key.from_sec(blob)                -> key or refusal; the decoded  *)
 (*            (public) key keeps abscissa, parity, and takes the blob's form    *)
 (*   ident    key.hash160(c), key.address(c)    -> remembered per form          *)
+(*   sectext  key.sec_as_hex(c) / public key .as_text() -> the network's text   *)
+(*            form of the public key: its SEC prefix, then the hex digits of    *)
+(*            the SEC octets                                                    *)
+(*   parsesec network.parse.sec(text) / parse.public_key(text) -> key or        *)
+(*            refusal; a text this session wrote must give this key back        *)
 (* and stateless judgements (any session, no state change):                     *)
 (*   sec      sec_to_public_pair / Key.from_sec on a blob of the (small) curve  *)
 (*            of this TLC run, with the decoded point                           *)
@@ -50,7 +55,7 @@ TNew == /\ Is("new")
         /\ IF Cur.ok
            THEN \E yp \in {0, 1} :
                   ks' = [live |-> TRUE, priv |-> TRUE, se |-> Cur.se, comp |-> Cur.comp, ypar |-> yp, x |-> Unknown,
-                         idc |-> Unknown, idu |-> Unknown]
+                         idc |-> Unknown, idu |-> Unknown, spfx |-> Unknown]
            ELSE ks' = NoKey /\ Cur.exc = "InvalidSecretExponentError"        \* the documented error
         /\ Advance
 
@@ -91,6 +96,29 @@ TFromSec == /\ Is("fromsec") /\ ks.live
                /\ ks' = IF Cur.ok /\ SubSeq(b, 2, 33) = ks.x
                         THEN [ks EXCEPT !.comp = Cur.comp, !.priv = FALSE] ELSE ks
             /\ Advance
+
+\* the text form of the public key on the session's network.  The prefix is the network's configuration (any
+\* characters, with or without a separator): it is learned from the first text and must stay the same.
+SecBlobOfSession(b) == /\ ks.x # Unknown /\ Len(b) \in {33, 65} /\ SubSeq(b, 2, 33) = ks.x
+                       /\ b[1] = (IF Len(b) = 33 THEN 2 + ks.ypar ELSE 4)
+TSecText == /\ Is("sectext") /\ ks.live
+            /\ LET b == Cur.b  c == FormFlag(Cur.c) IN
+               /\ Cur.text = Cur.pfx \o HexOf(b)
+               /\ Len(b) = IF c THEN 33 ELSE 65
+               /\ b[1] = IF c THEN 2 + ks.ypar ELSE 4
+               /\ ~c => b[65] % 2 = ks.ypar
+               /\ ks.x # Unknown => SubSeq(b, 2, 33) = ks.x
+               /\ ks.spfx # Unknown => Cur.pfx = ks.spfx
+               /\ ks' = [ks EXCEPT !.x = SubSeq(b, 2, 33), !.spfx = Cur.pfx]
+            /\ Advance
+\* lossless: a text this session wrote is accepted and names the same point in the form the text has
+TParseSec == /\ Is("parsesec") /\ ks.live
+             /\ LET b == Cur.b IN
+                /\ Cur.text = Cur.pfx \o HexOf(b)
+                /\ (Cur.pfx # Unknown /\ Cur.pfx = ks.spfx /\ SecBlobOfSession(b)) => Cur.ok
+                /\ Cur.ok => /\ Cur.comp = (Len(b) = 33) /\ Cur.rb = b
+                             /\ Len(b) \in {33, 65} /\ b[1] \in (IF Len(b) = 33 THEN {2, 3} ELSE {4})
+             /\ UNCHANGED ks /\ Advance
 
 \* hash160 and address of a form never change during a session (whatever round trips happened)
 TIdent == /\ Is("ident") /\ ks.live
@@ -136,6 +164,7 @@ TDer == /\ Is("der")
                                   /\ ~Cur.r.neg /\ ~Cur.s.neg
                                   /\ Cur.r.mag = MagOf(run.r) /\ Cur.s.mag = MagOf(run.s)
            /\ (HasTrailing(run) /\ ~Cur.openssl) => Cur.res = "refused"
+           /\ (Unreadable(run) /\ ~Cur.openssl) => Cur.res = "refused"
         /\ UNCHANGED ks /\ Advance
 
 TDerEnc == /\ Is("derenc")
@@ -157,7 +186,7 @@ TPub == /\ Is("pub")
         /\ ~Cur.ok => Cur.exc = "InvalidPublicPairError"        \* the documented error
         /\ UNCHANGED ks /\ Advance
 
-TNext == TPub \/ TNew \/ TWif \/ TParse \/ TSecEnc \/ TFromSec \/ TIdent
+TNext == TPub \/ TNew \/ TWif \/ TParse \/ TSecEnc \/ TFromSec \/ TIdent \/ TSecText \/ TParseSec
          \/ TSec \/ TSecF \/ TToyKey \/ TDer \/ TDerEnc \/ TWifP
 TSpec == TInit /\ [][TNext]_tvars
 
